@@ -88,6 +88,9 @@ mutual
     | .conv t e, env, z => by
       unfold domE checkE
       exact bind_inv _ _ _ _ _ _ (domE_inv e env _) (fun x => site_inv _ _ _)
+    | .assert t e, env, z => by
+      unfold domE checkE
+      exact bind_inv _ _ _ _ _ _ (domE_inv e env _) (fun x => site_inv _ _ _)
     | .index a i, env, z => by
       unfold domE checkE
       exact bind_inv _ _ _ _ _ _ (domE_inv a env _) (fun x =>
@@ -110,6 +113,10 @@ mutual
         bind_inv _ _ _ _ _ _ (site_inv _ _ _) (fun t' => ok_inv _))
     | .declz t, env => by unfold domS checkS; exact ok_inv _
     | .define e, env => by
+      unfold domS checkS
+      exact bind_inv _ _ _ _ _ _ (domE_inv T e env _) (fun x =>
+        bind_inv _ _ _ _ _ _ (site_inv _ _ _) (fun _ => ok_inv _))
+    | .defineOk t e, env => by
       unfold domS checkS
       exact bind_inv _ _ _ _ _ _ (domE_inv T e env _) (fun x =>
         bind_inv _ _ _ _ _ _ (site_inv _ _ _) (fun _ => ok_inv _))
